@@ -225,6 +225,8 @@ type dedupCase struct {
 	Mode string `json:"mode"`
 	// Big: a large case in compact form (Ali.Rows is then empty and filled from it by the check)
 	Big *bigRows `json:"big,omitempty"`
+	// Plan: the alignment is obtained through this chain of public operations (gen.BuildVia)
+	Plan *gen.Plan `json:"plan,omitempty"`
 }
 
 // manyDistinct: N pairwise distinct strings of length L over Chars (string k spells k in base
@@ -454,6 +456,40 @@ func genRows(t *rapid.T, alphabet string, bag bool, maxRows, maxLen int) []gen.R
 	return rows
 }
 
+// oddNames: names are arbitrary strings. A share of the cases renames up to three rows into a
+// variant of a row's name - a blank behind it (what the FASTA reader keeps of ">s2 "), blanks in
+// front (library only), upper case - so that names equal up to blanks or case coexist
+func oddNames(t *rapid.T, rows []gen.Row, leading bool) {
+	if len(rows) == 0 || rapid.IntRange(0, 3).Draw(t, "oddnames") != 0 {
+		return
+	}
+	for k := rapid.IntRange(1, 3).Draw(t, "nodd"); k > 0; k-- {
+		i := rapid.IntRange(0, len(rows)-1).Draw(t, "oddrow")
+		base := rows[rapid.IntRange(0, len(rows)-1).Draw(t, "oddof")].Name
+		v := rapid.IntRange(0, 4).Draw(t, "oddkind")
+		if !leading && v == 1 {
+			v = 0
+		}
+		name := []string{base + " ", " " + base, strings.ToUpper(strings.TrimSpace(base)), base + "  ", strings.TrimSpace(base) + " "}[v]
+		clash := false
+		for j := range rows {
+			clash = clash || (j != i && rows[j].Name == name)
+		}
+		if !clash {
+			rows[i].Name = name
+		}
+	}
+}
+
+func hasOddNames(rows []gen.Row) bool {
+	for _, r := range rows {
+		if strings.TrimSpace(r.Name) != r.Name || strings.ToLower(r.Name) != r.Name {
+			return true
+		}
+	}
+	return false
+}
+
 func genDedup(t *rapid.T) dedupCase {
 	var c dedupCase
 	c.Bag = rapid.Bool().Draw(t, "bag")
@@ -474,6 +510,14 @@ func genDedup(t *rapid.T) dedupCase {
 		return c
 	}
 	c.Ali.Rows = genRows(t, c.Ali.Alphabet, c.Bag, 10, 12)
+	oddNames(t, c.Ali.Rows, true)
+	if !c.Bag && rapid.Bool().Draw(t, "provenance") {
+		// an alignment (of the alphabet its rows were drawn from) that was cloned, renamed, cut,
+		// cleaned, concatenated, re-parsed ... before
+		p := gen.DrawPlan(t, c.Ali, "ACGT-NX", 3)
+		c.Plan = &p
+		return c
+	}
 	c.Mode = rapid.SampledFrom([]string{"", "", "", "unknown", "unknown", "both-ctor", "auto", "auto", "auto"}).Draw(t, "mode")
 	if c.Mode == "both-ctor" && c.Bag {
 		c.Mode = "unknown" // NewSeqBag refuses align.BOTH by exiting
@@ -487,7 +531,24 @@ func genDedup(t *rapid.T) dedupCase {
 	return c
 }
 
+// provenance of the last container built (classes only)
+var lastProvenance string
+
 func buildBag(c dedupCase) align.SeqBag {
+	lastProvenance = ""
+	if c.Plan != nil && !c.Bag && (c.mode() == "nt" || c.mode() == "aa") {
+		a := c.Ali
+		a.Alphabet = c.mode()
+		lastProvenance = "provenance-unusable"
+		want := align.NUCLEOTIDS
+		if a.Alphabet == "aa" {
+			want = align.AMINOACIDS
+		}
+		if al, usable := gen.BuildVia(a, *c.Plan); usable && al.Alphabet() == want && gen.SameRows(gen.Snapshot(al), a.Rows) {
+			lastProvenance = "provenance:yes"
+			return al
+		}
+	}
 	a := c.Ali
 	switch c.mode() {
 	case "nt", "aa":
@@ -588,6 +649,7 @@ func checkDedup(c dedupCase) (o pbt.Outcome, err error) {
 		c.Ali.Rows = c.Big.rows()
 	}
 	sb := buildBag(c)
+	prov := lastProvenance
 	rows := c.Ali.Rows
 	if !gen.SameRows(gen.Snapshot(sb), rows) {
 		return o, fmt.Errorf("harness: container does not hold the generated rows")
@@ -650,6 +712,17 @@ func checkDedup(c dedupCase) (o pbt.Outcome, err error) {
 	o.Class("nasgap=%v,container-alphabet=%s", c.NAsGap, containerAlphabet)
 	if open {
 		o.Class("wildcard-open(bag=%v)", c.Bag)
+	}
+	if prov != "" {
+		o.Class(prov)
+		if prov == "provenance:yes" {
+			for _, k := range c.Plan.Kinds() {
+				o.Class("provenance-step:%s", k)
+			}
+		}
+	}
+	if hasOddNames(rows) {
+		o.Class("names-with-blanks-or-upper-case,bag=%v", c.Bag)
 	}
 	if len(readDistinct(rows)) > 100 {
 		o.Class("large:distinct rows>100")
@@ -722,6 +795,8 @@ type compressCase struct {
 	Ali gen.Ali `json:"ali"`
 	// Big: a long alignment in compact form (Ali.Rows is then empty and filled from it by the check)
 	Big *bigCols `json:"big,omitempty"`
+	// Plan: the alignment is obtained through this chain of public operations (gen.BuildVia)
+	Plan *gen.Plan `json:"plan,omitempty"`
 }
 
 // bigCols: a long alignment. Column j holds the pattern Pool[Cycle[j mod len(Cycle)]], except the
@@ -905,7 +980,13 @@ func genCompress(t *rapid.T) compressCase {
 	}
 	a := genPatterns(t, chars, 8, 14)
 	a.Alphabet = alphabet
-	return compressCase{Ali: a}
+	oddNames(t, a.Rows, true)
+	c := compressCase{Ali: a}
+	if rapid.IntRange(0, 2).Draw(t, "provenance") == 0 {
+		p := gen.DrawPlan(t, a, chars+"-", 3)
+		c.Plan = &p
+	}
+	return c
 }
 
 // judgeCompress: weights and compressed rows against the original rows
@@ -1040,6 +1121,13 @@ func checkCompress(c compressCase) (o pbt.Outcome, err error) {
 		c.Ali = c.Big.ali()
 	}
 	al := gen.MustBuild(c.Ali)
+	prov := ""
+	if c.Plan != nil {
+		prov = "provenance-unusable"
+		if via, usable := gen.BuildVia(c.Ali, *c.Plan); usable && gen.SameRows(gen.Snapshot(via), c.Ali.Rows) {
+			al, prov = via, "provenance:yes"
+		}
+	}
 	rows := c.Ali.Rows
 	if !gen.SameRows(gen.Snapshot(al), rows) {
 		return o, fmt.Errorf("harness: container does not hold the generated rows")
@@ -1068,6 +1156,17 @@ func checkCompress(c compressCase) (o pbt.Outcome, err error) {
 	}
 	classifyCompress(&o, rows)
 	o.Class("alphabet=%s", c.Ali.Alphabet)
+	if prov != "" {
+		o.Class(prov)
+		if prov == "provenance:yes" {
+			for _, k := range c.Plan.Kinds() {
+				o.Class("provenance-step:%s", k)
+			}
+		}
+	}
+	if hasOddNames(rows) {
+		o.Class("names-with-blanks-or-upper-case")
+	}
 	if nd := len(readDistinctCols(rows)); nd > 100 {
 		o.Class("large:distinct patterns>100")
 		if nd > 1024 {
@@ -1146,6 +1245,12 @@ type cliCase struct {
 	Extra   [][]gen.Row `json:"extra,omitempty"`
 	OneLine bool        `json:"oneline"` // --one-line
 	NoBlock bool        `json:"noblock"` // --no-block
+	// Layout: presentation of a FASTA input (wrapped lines, blocks, CRLF, ...)
+	Layout cli.Layout `json:"layout"`
+	// OutState / LogState: what is at the path given to -o / to -l or --weight-out before the run:
+	// 0 an empty file, 1 nothing, 2 a longer file left by an earlier run
+	OutState int `json:"outstate"`
+	LogState int `json:"logstate"`
 }
 
 func TestCLI(t *testing.T) {
@@ -1159,6 +1264,9 @@ func TestCLI(t *testing.T) {
 		c.Alphabet = rapid.SampledFrom([]string{"nt", "aa"}).Draw(t, "alphabet")
 		c.WithLog = rapid.IntRange(0, 4).Draw(t, "withlog") != 0
 		c.ToFile = rapid.Bool().Draw(t, "tofile")
+		c.Layout = cli.DrawLayout(t)
+		c.OutState = rapid.SampledFrom([]int{0, 1, 2, 2}).Draw(t, "outstate")
+		c.LogState = rapid.SampledFrom([]int{0, 1, 2, 2}).Draw(t, "logstate")
 		if rapid.SampledFrom([]int{0, 0, 0, 0, 0, 0, 0, 0, 0, 0, 0, 1}).Draw(t, "big") == 1 {
 			// low-rate class: more than 12 rows / more than 1024 sites, alphabet given explicitly
 			c.AlphaFlag = c.Alphabet
@@ -1254,6 +1362,7 @@ func TestCLI(t *testing.T) {
 				c.AlphaFlag = c.Alphabet
 			}
 		}
+		oddNames(t, c.Rows, false) // the FASTA reader drops blanks in front of a name and keeps those behind it
 		if !c.Unaligned && len(c.Rows) >= 2 && len(c.Rows[len(c.Rows)-1].Seq) >= 2 && rapid.IntRange(0, 14).Draw(t, "ragged") == 0 {
 			c.Ragged = true
 			last := &c.Rows[len(c.Rows)-1]
@@ -1271,7 +1380,7 @@ func TestCLI(t *testing.T) {
 		}
 		alis := append([][]gen.Row{c.Rows}, c.Extra...)
 		multi := len(c.Extra) > 0
-		input := cli.Fasta(c.Rows)
+		input := cli.FastaLayout(c.Rows, c.Layout)
 		if multi {
 			input = phylipText(alis)
 		}
@@ -1279,6 +1388,17 @@ func TestCLI(t *testing.T) {
 		logf := cli.TempFile(dir, ".log", "")
 		outf := cli.TempFile(dir, ".out", "")
 		defer func() { os.Remove(in); os.Remove(logf); os.Remove(outf) }()
+		for _, f := range []struct {
+			path  string
+			state int
+		}{{outf, c.OutState}, {logf, c.LogState}} {
+			switch f.state {
+			case 1:
+				os.Remove(f.path)
+			case 2:
+				cli.StaleFile(f.path, 120)
+			}
+		}
 		args := []string{c.Cmd, "-i", in}
 		if multi {
 			args = append(args, "-p")
@@ -1356,8 +1476,11 @@ func TestCLI(t *testing.T) {
 			}
 			lines = strings.Split(string(lb[:len(lb)-1]), "\n")
 		}
-		if !c.WithLog && len(lines) > 0 {
+		if !c.WithLog && len(lines) > 0 && c.LogState != 2 {
 			return o, fmt.Errorf("harness: log file written without being asked for")
+		}
+		if !c.WithLog {
+			lines = nil
 		}
 		// each alignment's share of the lines: as many as it has rows (dedup) / columns (compress) left
 		if c.WithLog {
@@ -1453,6 +1576,21 @@ func TestCLI(t *testing.T) {
 			o.Class("multi-alignment-phylip:%s,n=%d,log=%v", c.Cmd, len(alis), c.WithLog)
 		}
 		o.Class("log=%v,tofile=%v", c.WithLog, c.ToFile)
+		if !c.Layout.Plain() {
+			o.Class("input-layout:not-plain")
+			if c.Layout.Blocks > 0 {
+				o.Class("input-layout:blocks")
+			}
+		}
+		if c.ToFile {
+			o.Class("out-file-state=%d", c.OutState)
+		}
+		if c.WithLog {
+			o.Class("log-file-state=%d", c.LogState)
+		}
+		if hasOddNames(c.Rows) {
+			o.Class("names-with-trailing-blank-or-upper-case")
+		}
 		return o, nil
 	})
 }
